@@ -328,7 +328,9 @@ namespace ip {
 
 		// this was initiated at least one 3-way handshake ago.
 		// we can pick it up and consider it connected
-		if (m_remote_endpoint) *m_remote_endpoint = c->ep[0];
+		// report the peer the way the accepted socket's remote_endpoint() will
+		// (i.e. as seen through any NAT on the connector's route)
+		if (m_remote_endpoint) *m_remote_endpoint = c->visible_ep[0];
 		m_remote_endpoint = nullptr;
 
 		boost::system::error_code ec;
